@@ -14,7 +14,9 @@ versus splipy.splinemodel / splipy.io.ofoam on whole model histories (`c18_model
   * `plans`: ownership of every codimension-1 section of every top node (owned?, position of the owning top
     node, the orientation `read_cp_numbers` computes) read off the REAL nodes, against the history-level
     statement `plansOfObjs` of the model (the function the Lean theorems and the kernel-evaluated witnesses
-    use), plus the model-internal check that the catalogue-derived plans equal `plansOfObjs`.
+    use), plus the model-internal check that the catalogue-derived plans equal `plansOfObjs`, plus the decidable
+    guard `starOK (plansOfObjs objs) (geomArrays objs)` of `C18_numbering_star` evaluated by the model against the
+    harness' own geometric classification of the history (`history_defects` empty); tag `cells:star-fails`.
 Refinement levels: patches of one complex carry 2, 3 or 5 control points per direction on a common lattice
 (level 0-3) — what `refine(n)` on all patches yields — generated directly (exact dyadic coordinates).
 
@@ -80,7 +82,7 @@ RULE = ('models: structured grids up to 2x2x2 / 3x2, L/T/U/O unions, corner-cont
 REQUIRED_TAGS = ['pardim=2', 'pardim=3', 'faces', 'ofoam', 'ifem:nonempty', 'level=0', 'level=1', 'level=2',
                  'history:linked', 'history:unlinked', 'witness:edge-contact', 'witness:corner-contact',
                  'witness:L-corner-last', 'family:self-connected', 'rational', 'reoriented', 'orient:nonzero',
-                 'interface-faces', 'names>1', 'two-volumes-48', 'cells:repeated-interior-knots']
+                 'interface-faces', 'names>1', 'two-volumes-48', 'cells:repeated-interior-knots', 'cells:star-fails', 'star-ok']
 
 ALL = ['num', 'cps', 'faces', 'ofoam', 'ifem', 'plans']
 
@@ -562,7 +564,9 @@ def run_impl(sp, s):
                     ori = 'None' if owned else c17.ori_plain(sm.Orientation.compute(t.obj.section(*sec, unwrap_points=False), node.obj))
                     row.append([owned, next(i for i, x in enumerate(tops) if x is node.owner), ori])
                 rows.append(row)
-            return [True, rows]
+            # the decidable guard `starOK` of C18_numbering_star, stated geometrically (history_defects)
+            # guards of C18_numbering_partition (ownership first-come, no junk read): expected to hold on every history
+            return [True, not s['history'], True, rows]
         plans = _call(real_plans)
     out = [len(tops), 'skip', 'skip', 'skip', 'skip', 'skip', ifem, plans]
     if 'num' not in what:
@@ -1044,6 +1048,7 @@ def tags(s, res):
     out = ['pardim=%d' % s['pardim'], 'family:' + s['family'], 'patches=%d' % len(s['patches']), 'level=%d' % s['level']]
     out += list(s['flags'])
     out.append('history:' + ('unlinked' if 'contact' in s['history'] else 'linked'))
+    out.append('cells:star-fails' if s['history'] else 'star-ok')
     if any(p['rational'] for p in s['patches']):
         out.append('rational')
     if s.get('orients') and any(o != [list(range(s['pardim'])), [0] * s['pardim']] for o in s['orients']):
